@@ -226,6 +226,7 @@ fn alphabet(sizes: &[usize]) -> Vec<Op> {
 }
 
 fn run_history(size: usize, start_gen: u8, hist: &[Op], classes: &std::collections::HashMap<usize, [usize; 4]>) -> Result<Exec, (usize, String)> {
+    crate::util::set_current_case(case_json(size, start_gen, hist).dump().replace('\n', " "), format!("table of {size} MB, generation {start_gen}, operations {}", hist.iter().map(|o| o.text()).collect::<Vec<_>>().join(" ")));
     let mut e = Exec::new(size, start_gen, classes).map_err(|m| (0, format!("new({size}) panicked: {m}")))?;
     e.compare().map_err(|m| (0, m))?;
     for (i, op) in hist.iter().enumerate() {
@@ -322,12 +323,15 @@ pub fn fill_indicator(run: &Run, sizes: &[usize]) -> (u64, u64) {
     for &size in sizes {
         let entry = std::mem::size_of::<crate::engine::transposition_table::TranspositionTableEntry<SearchTranspositionTableData>>();
         let n_by_size = size * 1024 * 1024 / entry;
+        crate::util::set_current_case(J::obj(vec![("kind", J::s("tt-fill")), ("size_mb", J::i(size as i64))]).dump().replace('\n', " "), format!("fill-indicator pass on a table of {size} MB"));
         let r = catch(|| {
             let n = crate::engine::transposition_table::calculate_number_of_entries::<SearchTranspositionTableData>(size).max(1);
             let mut t = SearchTranspositionTable::new(size);
             let mut bad: Vec<String> = vec![];
-            let total = 2 * n_by_size.max(n).max(4);
-            let keys: Vec<u64> = (0..total as u64).map(|i| crate::util::mix(i ^ 0xC19)).collect();
+            let total = 4 * n_by_size.max(n).max(4);
+            // first half: consecutive integers (they reach every residue of any modulus or mask up to their count),
+            // second half: pseudo-random 64-bit keys
+            let keys: Vec<u64> = (0..total as u64).map(|i| if i < total as u64 / 2 { i } else { crate::util::mix(i ^ 0xC19) }).collect();
             let mut checkpoints: Vec<usize> = vec![1, 2, 3, 10, n / 1000, n / 1000 + 1, n / 500, n / 100, n / 20, n / 10, n / 4, n / 2, n - 1, n, n + 1, 3 * n / 2, total];
             for k in 1..=20 {
                 checkpoints.push(k * total / 20);
@@ -385,7 +389,7 @@ pub fn fill_indicator(run: &Run, sizes: &[usize]) -> (u64, u64) {
             }
         }
     }
-    run.family("TT-FILL", &format!("sizes {sizes:?} MB: 2 x (size / entry size) pseudo-random keys inserted one by one; at ~35 checkpoints (1, 2, 3, 10, the permille steps around N/1000, N/100 .. N, 3N/2, 2N) the number of occupied slots is measured through probes and compared with `occupied` and the fill indicator; capacity; re-insertion; reset"), states, tr, true, "independent of the key-to-slot mapping");
+    run.family("TT-FILL", &format!("sizes {sizes:?} MB: 4 x (size / entry size) keys (half consecutive integers, half pseudo-random) inserted one by one; at ~35 checkpoints (1, 2, 3, 10, the permille steps around N/1000, N/100 .. N, 3N/2, 2N) the number of occupied slots is measured through probes and compared with `occupied` and the fill indicator; capacity; re-insertion; reset"), states, tr, true, "independent of the key-to-slot mapping");
     (states, tr)
 }
 
